@@ -1,12 +1,18 @@
 /-
 C01 — Coggeshall solution 1 satisfies the documented balance equations of mass,
-momentum and energy (no conduction enters: the energy equation holds in its
-hydrodynamic form and the heat flux is separately divergence free — see below)
-for every real geometry factor k = geometry - 1, every γ, b, ρ₀, T₀, Γ, at every
-r > 0, t > 0.
+momentum and energy for every real geometry factor k = geometry - 1, every
+γ ≠ 1, b, ρ₀, T₀, Γ, at every r > 0, t > 0.
+
+Solution 1 is a pure hydrodynamic solution: its documentation lists the free
+parameters b, k, ρ₀, T₀, γ and no mean-free-path law (no α, β, λ₀), i.e. the
+problem has no conduction term, λ₀ = 0.  The energy equation is therefore
+stated twice: in its hydrodynamic form (`cog1_energy_hydro`) and as the full
+documented residual `energyResT` with λ₀ = 0 and arbitrary c, a, α, β
+(`cog1_energy`).
 -/
 import EPV.Gen.Cog1D
 import EPV.Spec.Euler1D
+import EPV.Lemmas.Euler1D
 import EPV.Tactics
 
 set_option linter.all false
@@ -26,5 +32,37 @@ theorem cog1_mass (p : Cog1.P) (r t : ℝ) (hr : 0 < r) (ht : 0 < t) :
   simp only [epv_deriv, epv_leaf]
   field_simp
   ring
+
+/-- momentum; the code divides by ρ, so ρ₀ ≠ 0 is required -/
+theorem cog1_momentum (p : Cog1.P) (r t : ℝ) (hr : 0 < r) (ht : 0 < t) (hρ : p.rho0 ≠ 0) :
+    momResT (Cog1.L1.density p) (Cog1.L1.velocity p) (Cog1.L1.temperature p) p.Gamma r t = 0 := by
+  unfold momResT dr dt
+  rw [(Cog1.L1.velocity_hasDerivAt_t p r t ht.ne').deriv, (Cog1.L1.velocity_hasDerivAt_r p r t).deriv,
+    (Cog1.L1.density_hasDerivAt_r p r t hr).deriv, (Cog1.L1.temperature_hasDerivAt_r p r t hr).deriv]
+  simp only [epv_deriv, epv_leaf]
+  have h1 := Real.rpow_pos_of_pos hr p.b
+  have h2 := Real.rpow_pos_of_pos ht (((-p.b) - (p.geometry - (1 : ℝ))) - (1 : ℝ))
+  field_simp
+  ring
+
+theorem cog1_energy_hydro (p : Cog1.P) (r t : ℝ) (hr : 0 < r) (ht : 0 < t) (hγ : p.gamma - 1 ≠ 0) :
+    energyHydroT (Cog1.L1.velocity p) (Cog1.L1.temperature p) p.Gamma p.gamma (p.geometry - 1) r t = 0 := by
+  unfold energyHydroT dr dt
+  rw [(Cog1.L1.temperature_hasDerivAt_t p r t ht).deriv, (Cog1.L1.velocity_hasDerivAt_r p r t).deriv,
+    (Cog1.L1.temperature_hasDerivAt_r p r t hr).deriv]
+  simp only [epv_deriv, epv_leaf]
+  field_simp
+  ring
+
+/-- the documented energy residual with no conduction (λ₀ = 0), any c, a, α, β -/
+theorem cog1_energy (p : Cog1.P) (r t : ℝ) (hr : 0 < r) (ht : 0 < t) (hγ : p.gamma - 1 ≠ 0) (c a α β : ℝ) :
+    energyResT (Cog1.L1.density p) (Cog1.L1.velocity p) (Cog1.L1.temperature p) p.Gamma p.gamma
+      (p.geometry - 1) c a 0 α β r t = 0 := by
+  rw [energyResT_lam0_zero]
+  exact cog1_energy_hydro p r t hr ht hγ
+
+/-- non-vacuity: the hypotheses hold at the solver's defaults -/
+example : ∃ (p : Cog1.P) (r t : ℝ), 0 < r ∧ 0 < t ∧ p.rho0 ≠ 0 ∧ p.gamma - 1 ≠ 0 :=
+  ⟨⟨40, 0, 0, 6/5, 0, 0, 7/5, 3, 0, 9/5, 7/5⟩, 1, 1, by norm_num, by norm_num, by norm_num, by norm_num⟩
 
 end EPV.C01
